@@ -18,6 +18,12 @@ def unhx(s):
     return -int(s[1:], 16) if s.startswith("-") else int(s, 16)
 
 
+def errsum(err):
+    """the informative lines of a sanitizer / abort report"""
+    m = [l.strip() for l in err.split("\n") if "ERROR" in l or "runtime error" in l or "SUMMARY" in l or "Abort" in l or "abort" in l]
+    return (" | ".join(m)[:500]) or err.strip()[-400:].replace("\n", " | ")
+
+
 def first_last(v, rank):
     ps = [j for j in range(len(v)) if v[j] != 0 and j != rank]
     return (ps[0], ps[-1]) if ps else (len(v), -1)
@@ -241,11 +247,11 @@ def run(ctx):
                 xs = [unhx(x) for x in w[3:]]
                 cases = [("T", ([xs[r * P:(r + 1) * P] for r in range(P)], nr), rp["case"])] + cases[:20]
     text = "\n".join(c[2] for c in cases) + "\n"
-    rc, impl, err = ctx.run_lines([exe], text, timeout=1200, env=env)
+    rc, impl, err = ctx.run_lines([exe], text, timeout=300 if ctx.quick else 1800, env=env)
     impl = impl[:-1] if impl and impl[-1] == "" else impl
     if rc != 0:
         k = min(len(impl), len(cases) - 1)
-        ctx.violation("crash:serial", "libsc ends the process (exit %s) in case '%s...': %s" % (rc, cases[k][2][:200], err.strip()[-400:].replace("\n", " | ")),
+        ctx.violation("crash:serial", "libsc ends the process (exit %s) in case '%s...': %s" % (rc, cases[k][2][:200], errsum(err)),
                       dict(case=cases[k][2], stderr=err[-1500:]))
         cases = cases[:len(impl)]
         text = "\n".join(c[2] for c in cases) + "\n"
@@ -330,7 +336,7 @@ def run(ctx):
             for (vecs, nr, line) in gen_adaptive(ctx.rng, P, 24 if ctx.quick else 200):
                 scases.append((ctx.rng.randrange(1 << 30), ctx.rng.randrange(8), nr, [list(v) for v in vecs], line))
         stext = "".join("S %x %x %s\n" % (sd, adv, line[2:]) for (sd, adv, nr, vecs, line) in scases)
-        rc, sl, serr = ctx.run_lines([exes], stext, timeout=900, env=env)
+        rc, sl, serr = ctx.run_lines([exes], stext, timeout=300 if ctx.quick else 1800, env=env)
         sl = [l for l in sl if l != ""]
         ml = None
         if model is not None:
@@ -342,7 +348,7 @@ def run(ctx):
             rep = dict(sim=[sd, adv, nr, vecs, line], case=line)
             key = "adaptive-sim:P%d:nr%d:adv%d" % (P, nr, adv)
             if pos >= len(sl) or not sl[pos].startswith("RUN "):
-                ctx.violation("crash:sim", "the simulated run of '%s' (seed %d, adversary %d) ended the harness (exit %s): %s" % (line[:120], sd, adv, rc, serr.strip()[-400:].replace("\n", " | ")), rep)
+                ctx.violation("crash:sim", "the simulated run of '%s' (seed %d, adversary %d) ended the harness (exit %s): %s" % (line[:120], sd, adv, rc, errsum(serr)), rep)
                 break
             head, per = sl[pos], sl[pos + 1:pos + 1 + P]
             pos += 1 + P
@@ -380,7 +386,7 @@ def run(ctx):
             atext = "\n".join(c[2] for c in acases) + "\n"
             open(cf, "w").write(atext)
             outp = os.path.join(ctx.scratch, "c15_mpi_out_%d" % P)
-            rc, o = vlib.sh(["mpirun", "--allow-run-as-root", "--oversubscribe", "-np", str(P), exem, cf, outp], timeout=900, env=env)
+            rc, o = vlib.sh(["mpirun", "--allow-run-as-root", "--oversubscribe", "-np", str(P), exem, cf, outp], timeout=120 if ctx.quick else 900, env=env)
             if rc != 0:
                 ctx.tie_broken("c15 OpenMPI run (P=%d)" % P, "exit %s: %s" % (rc, o[-800:]))
                 continue
